@@ -80,6 +80,10 @@ def check_ctor(run, objs, props, rows, tag):
     if res[0] == 'ok':
         ctx = res[1]
         with guard(run, 'objects/properties/bools of an accepted context', [req]):
+            got_rows = ctx.bools
+            if isinstance(got_rows, list):
+                got_rows.reverse()
+                got_rows.append(('junk',))
             if (ctx.objects != tuple(objs) or ctx.properties != tuple(props)
                     or ctx.bools != [tuple(bool(c) for c in r) for r in cells]):
                 run.fail('accepted input is not reproduced', [ctx.objects, ctx.properties, ctx.bools],
